@@ -2,6 +2,9 @@ import Hcl.Proofs.CheckSpec
 import Hcl.Proofs.EvalCorrect
 import Hcl.Proofs.ActionsVerdict
 import Hcl.Proofs.ConstErrors
+import Hcl.Proofs.DefaultsRule
+import Hcl.Proofs.Step1Tables
+import Hcl.Proofs.FlagProgram
 
 /-!
 # C08 — acceptance is decided exactly by the documented width rules
@@ -88,3 +91,35 @@ theorem C08_accepted_constants (fl : Flags) (cls : CharClass) (o : Orders) (stmt
       simp only [Except.ok.injEq] at hcv
       subst hcv
       exact ⟨v', w, hv, (C08_accept_iff_rules fl _ _ e w).mp hck, rfl⟩
+
+/-- **C08 for the register defaults of every accepted program**: every register of every bank of the program comes from a
+    declaration `name : width = default` of a bank of that label whose default passes the width checker in the table of
+    the constants (hence obeys the rules, `C08_accept_iff_rules`), has the register's width or is unsized, and whose value,
+    brought to the register's width, is the value the register starts with. -/
+theorem C08_accepted_defaults (fl : Flags) (cls : CharClass) (o : Orders) (stmts : List Stmt) (p : Program)
+    (hwf : StmtsWF stmts) (h : Program.new fl cls o y86FixedFunctions stmts = .ok p) :
+    ∀ b ∈ p.banks, ∃ bd ∈ (step1Of stmts).banksRaw, bd.name = b.label ∧
+      ∀ sg ∈ b.signals, ∃ r ∈ bd.regs, DefaultRule fl p.constants b.defaults sg r := by
+  have hclean := Program_new_s3clean fl cls o stmts p h
+  obtain ⟨s1, c, s3, k, _, _, _, hpc, hpb, _, e1, _, e3, _, _, _⟩ := Program_new_decompose' fl cls o stmts p hwf h
+  subst e1
+  subst hpc
+  unfold step3Of at hclean e3
+  have := step3_rule fl cls (step1Of stmts) p.constants hclean
+  rw [hpb, e3]
+  exact this
+
+/-- the same, naming the `register` statement -/
+theorem C08_accepted_defaults_stmt (fl : Flags) (cls : CharClass) (o : Orders) (stmts : List Stmt) (p : Program)
+    (hwf : StmtsWF stmts) (h : Program.new fl cls o y86FixedFunctions stmts = .ok p) :
+    ∀ b ∈ p.banks, ∃ bd, Stmt.bank bd ∈ stmts ∧ bd.name = b.label ∧
+      ∀ sg ∈ b.signals, ∃ r ∈ bd.regs, DefaultRule fl p.constants b.defaults sg r := by
+  intro b hb
+  obtain ⟨bd, hbd, e, hs⟩ := C08_accepted_defaults fl cls o stmts p hwf h b hb
+  rw [step1Of_banksRaw, List.mem_filterMap] at hbd
+  obtain ⟨st, hst, hm⟩ := hbd
+  cases st with
+  | bank b' => simp only [Option.some.injEq] at hm; subst hm; exact ⟨b', hst, e, hs⟩
+  | consts _ => cases hm
+  | wires _ => cases hm
+  | assigns _ => cases hm
